@@ -368,7 +368,12 @@ func rsemScenario(c *Ctx, sh *shard, scen int) {
 		if usePartition {
 			tr.partition = parts[c.intn(len(parts))]
 			if copyHeavy {
-				tr.partition = fmt.Sprintf("only%d", i/3) // three consecutive rows per partition: one file each
+				// one partition shared by all files (so that files have a mergeable block pair and are
+				// grouped), the others private to one file each (their blocks are copied verbatim)
+				tr.partition = "common"
+				if i%3 != 0 {
+					tr.partition = fmt.Sprintf("only%d", i/3)
+				}
 			}
 			m["p"] = tr.partition
 		}
